@@ -17,3 +17,5 @@ Definition compile_failure (e : exc) : result := handle cmdline_outer_handlers e
 
 Definition is_exception (e : exc) : bool := match e with EBaseOnly => false | _ => true end.
 Definition value_family (e : exc) : bool := match e with EValueError | ERepoInit => true | _ => false end.
+(* what an unusable repository argument can raise: the ValueError family, or an OSError from the file system *)
+Definition repo_arg_family (e : exc) : bool := match e with EValueError | ERepoInit | EOSError => true | _ => false end.
